@@ -21,6 +21,9 @@ MARK_O, MARK_C = "/*@+*/", "/*@-*/"
 
 DEFINITE = [
     ("postcondition not satisfied", "postcondition"),
+    ("unable to prove post-condition of closure", "postcondition"),
+    ("unable to prove pre-condition of closure", "precondition"),
+    ("unable to prove assertion safety condition", "assertion"),
     ("precondition not satisfied", "precondition"),
     ("assertion failed", "assertion"),
     ("invariant not satisfied", "invariant"),
@@ -75,6 +78,7 @@ class Block:
         self.droparms = []  # (pattern_start_seq, replacement_text)
         self.dropscan = []  # identifiers (prefix match) that must NOT occur in dropped text
         self.closures = []  # (nth, text): ghost result naming wrapped around the nth closure body of the fn
+        self.bindclosures = []  # (nth, name): extraction rewrite - bind the nth closure expression to a local before its statement
 
 
 def parse_template(path):
@@ -140,11 +144,17 @@ def parse_template(path):
                         mode = None
                     elif s2.startswith("//@spec"):
                         mode = "spec"
+                    elif s2.startswith("//@bindclosure"):
+                        m = re.match(r'//@bindclosure\s+nth=(\d+)\s+name=(\w+)', s2)
+                        if not m:
+                            raise ValueError("%s:%d bad bindclosure" % (path, i + 1))
+                        b.bindclosures.append((int(m.group(1)), m.group(2)))
+                        mode = None
                     elif s2.startswith("//@closure"):
                         m = re.match(r'//@closure(?:\s+nth=(\d+))?', s2)
                         mode = ("closure", None, int(m.group(1)) if m.group(1) else 0)
                     elif s2.startswith("//@at"):
-                        m = re.match(r'//@at\s+(before|after|loop-body|loop|body-start|body-end)(?:\s+("(?:[^"\\]|\\.)*"))?(?:\s+nth=(\d+))?', s2)
+                        m = re.match(r'//@at\s+(before|after|loop-body|loop-end|loop-after|loop|arm-start|arm-end|body-start|body-end)(?:\s+("(?:[^"\\]|\\.)*"))?(?:\s+nth=(\d+))?', s2)
                         if not m:
                             raise ValueError("%s:%d bad //@at" % (path, i + 1))
                         mode = (m.group(1), json.loads(m.group(2)) if m.group(2) else None,
@@ -185,6 +195,47 @@ def apply_rewrites(text, rewrites, report):
             text = text[:a] + to + text[b:]
         report.append("rewrite %r => %r (%d site%s)" % (frm, to, len(hits), "" if len(hits) == 1 else "s"))
     return text
+
+
+def bind_closure(text, nth, name, fn, report):
+    """Extraction rewrite: `stmt(.. |p| body ..);` => `let NAME = |p| body; stmt(.. NAME ..);` (a closure passed inline
+    cannot be named by ghost text; binding it to a local first does not change what is executed)."""
+    toks = rsrc.lex(text)
+    k = 0
+    while not (toks[k].kind == "p" and toks[k].text == "{"):
+        if toks[k].kind == "p" and toks[k].text in "([":
+            k = rsrc.match_close(toks, k)
+        k += 1
+    body_open = k
+    body_close = rsrc.match_close(toks, body_open)
+    cls = find_closures(toks, body_open, body_close)
+    if nth >= len(cls):
+        raise Undecided("lost-anchor: closure #%d to bind not found in fn %s" % (nth, fn))
+    bar2, first, last = cls[nth]
+    # the opening `|` of the parameter list
+    j = bar2 - 1
+    while not (toks[j].kind == "p" and toks[j].text == "|"):
+        j -= 1
+    start = j
+    if toks[start - 1].kind == "id" and toks[start - 1].text == "move":
+        start -= 1
+    # start of the enclosing statement: after the previous `;`, `{` or `}` outside any bracket opened before the closure
+    depth = 0
+    s_ = start - 1
+    while s_ > body_open:
+        t = toks[s_]
+        if t.kind == "p" and t.text in ")]":
+            depth += 1
+        elif t.kind == "p" and t.text in "([":
+            depth = max(0, depth - 1)
+        elif t.kind == "p" and t.text in ";{}" and depth == 0:
+            break
+        s_ -= 1
+    stmt_start = toks[s_ + 1].start
+    closure_text = text[toks[start].start:toks[last].end]
+    new = text[:stmt_start] + "let %s = %s; " % (name, closure_text) + text[stmt_start:toks[start].start] + name + text[toks[last].end:]
+    report.append("closure #%d bound to a local `%s` before its statement (so that ghost text can name it)" % (nth, name))
+    return new
 
 
 def find_closures(toks, lo, hi):
@@ -260,6 +311,8 @@ def extract_block(b, sources, scratch, canary=False):
     orig_line = src.count("\n", 0, it.toks[fn_tok].start) + 1
     rew_report = []
     text = apply_rewrites(text, b.rewrites, rew_report)
+    for nth, name in b.bindclosures:
+        text = bind_closure(text, nth, name, b.args["fn"], rew_report)
     dropped_texts = []
     for pat, repl in b.droparms:
         toks = rsrc.lex(text)
@@ -368,7 +421,24 @@ def extract_block(b, sources, scratch, canary=False):
             add(toks[k].start, txt + "\n")
         elif kind == "after":
             add(toks[k + len(seq) - 1].end, "\n" + txt + "\n")
-        elif kind in ("loop", "loop-body"):
+        elif kind in ("arm-start", "arm-end"):
+            # the match arm whose pattern starts with the anchor tokens: insert at the start / end of its block body
+            j = k
+            while j < len(toks):
+                t = toks[j]
+                if t.kind == "p" and t.text in "([{":
+                    j = rsrc.match_close(toks, j)
+                elif t.text == "=" and toks[j + 1].text == ">" and toks[j + 1].start == t.end:
+                    break
+                j += 1
+            bopen = j + 2
+            if toks[bopen].text != "{":
+                raise Undecided("anchor %r: match arm body is not a block" % anchor)
+            if kind == "arm-start":
+                add(toks[bopen].end, "\n" + txt + "\n")
+            else:
+                add(toks[rsrc.match_close(toks, bopen)].start, "\n" + txt + "\n")
+        elif kind in ("loop", "loop-body", "loop-end", "loop-after"):
             j = k + len(seq)
             while j < len(toks):
                 t = toks[j]
@@ -380,8 +450,12 @@ def extract_block(b, sources, scratch, canary=False):
             if kind == "loop":
                 add(toks[j].start, "\n" + txt + "\n")
                 loops_for_canary.append(toks[j].end)
-            else:
+            elif kind == "loop-body":
                 add(toks[j].end, "\n" + txt + "\n")
+            elif kind == "loop-end":
+                add(toks[rsrc.match_close(toks, j)].start, "\n" + txt + "\n")
+            else:
+                add(toks[rsrc.match_close(toks, j)].end, "\n" + txt + "\n")
     if canary:
         add(toks[body_open].end, " proof { assert(false); } ")
         for off in loops_for_canary:
